@@ -409,6 +409,24 @@ def b_list(ex, s, args, kw, node):
         for s1, v1 in ex.unopt(s, v, node):         # list(None): TypeError
             out.extend([(s1, v1)] if isinstance(v1, Raised) else b_list(ex, s1, [v1], kw, node))
         return out
+    if isinstance(v, VPy):
+        # list(<dynamically typed value>): a copy of a list of str, [] for (), TypeError for None / bool / int;
+        # str and pairs (list of characters / of components) are not modelled
+        P = pyobj_sort()
+        out, rest = [], s
+        for test, mk in ((P.is_py_strlist(v.z), lambda: VSeq(P.py_l(v.z), 'str')),
+                         (P.is_py_tuple0(v.z), lambda: VSeq(z3.Empty(z3.SeqSort(StrS)), 'str')),
+                         (z3.Or(P.is_py_none(v.z), P.is_py_bool(v.z), P.is_py_int(v.z)), None)):
+            nxt = None
+            for s2, side in ex.branch(rest, test, node):
+                if side:
+                    out.append((s2, mk()) if mk else _raise(s2, 'TypeError'))
+                else:
+                    nxt = s2
+            rest = nxt
+            if rest is None:
+                return out
+        raise Unsupported('list() of a dynamically typed str / pair')
     if isinstance(v, (VTuple, VList)):
         return [(s, s.alloc(VList(v.items)))]
     if isinstance(v, VSeq):
@@ -1683,3 +1701,18 @@ def di_copy(ex, s, recv, r, args, kw, node):
 
 
 DICT_METHODS.setdefault('copy', di_copy)
+
+
+_by_find_general = STR_METHODS.get('find')
+
+
+def st_find_exact(ex, s, recv, r, args, kw, node):
+    """str.find(sub) without start/end as SMT-LIB str.indexof (same value: least index, -1 when absent, 0 for the
+    empty needle); opt-in per sidecar (Spec.exact_str_find) because it changes the shape of the result term"""
+    if getattr(ex.spec, 'exact_str_find', False) and isinstance(r, VStr) and len(args) == 1 and not kw \
+            and isinstance(ex.deref(s, args[0]), VStr):
+        return [(s, VInt(z3.IndexOf(r.z, ex.deref(s, args[0]).z, z3.IntVal(0))))]
+    return _by_find_general(ex, s, recv, r, args, kw, node)
+
+
+STR_METHODS.update({'find': st_find_exact})
